@@ -18,12 +18,22 @@ func C14(c *core.Ctx) {
 	}
 
 	c.SetCov("rule", "seeded randomised histories biased towards Update FAR (tunnel changes, SNDEM on/off, unknown FAR ids, several FARs per message, end markers enabled / disabled); "+
-		"every packet on the end-marker socket is decoded (Ethernet/IPv4/UDP/GTPv1-U) and compared with EndMarkersDue of the pre-update session; the farLookup add is held for 25 ms so that "+
+		"on BESS and on UP4 (packet-outs received by the harness' P4Runtime switch); every packet on the end-marker socket is decoded (Ethernet/IPv4/UDP/GTPv1-U) and compared with EndMarkersDue of the pre-update session; the farLookup add is held for 25 ms so that "+
 		"a marker emitted before the new rule was acknowledged is observed as early; evaluations = script steps")
 
-	res := runE2EShards(c, "e2e-rand", nshards, "TraceE2E_C14.cfg", func(i int) interface{} {
+	nup4 := 3
+	if c.Thorough() {
+		nup4 = 6
+	}
+
+	res := runE2EMixed(c, nshards+nup4, "TraceE2E_C14.cfg", func(i int) (string, interface{}) {
 		dir, trace := shardDir(c, i)
-		return E2EParams{Dir: dir, Trace: trace, AgentBin: filepath.Join(c.BinDir, "verif-agent"), N4Addr: n4For(i),
+		if i >= nshards { // UP4: the markers leave as packet-outs on the P4Runtime stream
+			return "e2e-up4", Up4Params{Dir: dir, Trace: trace, AgentBin: filepath.Join(c.BinDir, "verif-agent"), N4Addr: n4For(i),
+				Seed: c.Seed*1000 + 160 + int64(i), Scenarios: scenarios, Steps: steps, Markers: 1 + (i-nshards)%3/2}
+		}
+
+		return "e2e-rand", E2EParams{Dir: dir, Trace: trace, AgentBin: filepath.Join(c.BinDir, "verif-agent"), N4Addr: n4For(i),
 			Seed: c.Seed*1000 + 140 + int64(i), Scenarios: scenarios, Steps: steps, Rejects: false, Kill: false, Alloc: 0, EndMarker: 1 + i%2, FarBias: true, HoldFarMs: 25}
 	})
 	judgeE2E(c, res, map[string]bool{"InEnvelope": true})
